@@ -58,7 +58,7 @@ def mine():
     key = t2nlib.REPO
     if key in _CACHE:
         return _CACHE[key]
-    chars, nums, strs, words = set(), set(), set(), set()
+    chars, nums, strs, words, letters = set(), set(), set(), set(), set()
     for p in sorted(glob.glob(os.path.join(t2nlib.REPO, "src", "**", "*.rs"), recursive=True)):
         s = _code(p)
         for m in _STR_LIT.finditer(s):
@@ -69,6 +69,8 @@ def mine():
             for c in body:
                 if not c.isalnum():
                     chars.add(c)
+                elif not c.isascii() and os.sep + "lang" + os.sep not in p:
+                    letters.add(c)           # a non-ASCII letter or digit named by the language-independent code
             if 0 < len(body) <= 6 and not body.isalnum():
                 strs.add(body)
             # word-like literals of the language-independent files (a word singled out by the generic code)
@@ -80,6 +82,8 @@ def mine():
             c = _unescape(m.group(1))
             if len(c) == 1 and not c.isalnum():
                 chars.add(c)
+            elif len(c) == 1 and not c.isascii():
+                letters.add(c)               # a non-ASCII letter or digit singled out in a char literal (a ligature, a numeral)
         s3 = _CHAR_LIT.sub("' '", s2)
         for m in _NUM_LIT.finditer(s3):
             t = m.group(1).replace("_", "")
@@ -94,7 +98,8 @@ def mine():
                 if not c.isalnum():
                     chars.add(c)
     chars.discard(" ")
-    r = {"chars": sorted(chars), "nums": sorted(n for n in nums if 2 <= n <= 200000), "strs": sorted(strs), "words": sorted(words)}
+    r = {"chars": sorted(chars), "nums": sorted(n for n in nums if 2 <= n <= 200000), "strs": sorted(strs), "words": sorted(words),
+         "letters": sorted(letters)}
     _CACHE[key] = r
     return r
 
@@ -114,10 +119,16 @@ def special_chars():
     return mine()["chars"]
 
 
+def special_letters():
+    """non-ASCII letters / digits singled out by the code (char literals anywhere, strings of the language-independent files)"""
+    return mine()["letters"]
+
+
 if __name__ == "__main__":
     m = mine()
     print("chars:", [hex(ord(c)) for c in m["chars"]])
     print("nums:", m["nums"])
     print("strs:", m["strs"])
     print("words:", m["words"])
+    print("letters:", m["letters"])
     print("sizes:", sizes())
